@@ -404,7 +404,7 @@ var vfBadCalls = []string{
 	"mkds-array-without-dims", "mkds-enum-mismatch", "mkds-opaque-without-tag", "mkds-unknown-type", "mkds-duplicate", "mkds-missing-parent",
 	"mkgroup-empty", "mkgroup-relative", "mkgroup-root", "mkgroup-duplicate", "mkgroup-missing-parent", "mkgroup-over-dataset-name",
 	"attr-nil", "attr-unsupported-type", "attr-empty-slice", "attr-2d-slice", "attr-on-group-unsupported",
-	"attr-value-oversize", "attr-name-oversize",
+	"attr-value-oversize", "attr-name-oversize", "attr-value-near-heap-capacity-a", "attr-value-near-heap-capacity-b",
 	"delattr-absent", "write-wrong-length", "write-wrong-type", "writeraw-wrong-size", "write-nil",
 	"resize-not-resizable", "resize-beyond-max", "resize-rank-mismatch", "resize-zero",
 	"hardlink-missing-target", "hardlink-duplicate-name", "hardlink-missing-parent", "hardlink-relative", "hardlink-to-root-path",
@@ -491,6 +491,11 @@ func vfApplyBad(w *vfWorld, o vfOp) error {
 	case "attr-value-oversize":
 		// an encoded attribute message larger than 64 KiB
 		return vfAttrOn(w, o.Path, "badattr", make([]float64, 8200))
+	case "attr-value-near-heap-capacity-a":
+		// fits the 64 KiB attribute heap alone, but not together with a few small attributes
+		return vfAttrOn(w, o.Path, "badattr", strings.Repeat("c", 65330))
+	case "attr-value-near-heap-capacity-b":
+		return vfAttrOn(w, o.Path, "badattr", strings.Repeat("c", 65460))
 	case "attr-name-oversize":
 		return vfAttrOn(w, o.Path, strings.Repeat("n", 65000), int32(1))
 	case "attr-on-group-unsupported":
